@@ -43,7 +43,7 @@ func wildPort() (int, net.Listener) {
 }
 
 func TestVfC03WildcardUDP(t *testing.T) {
-	st := vfkit.Stats("TestVfC03WildcardUDP", "UDP listeners on the wildcard address (forms :P, 0.0.0.0:P, [::]:P) with udp.multi_routes and threads in {1,2,4}; 1-6 fresh client sockets (connected, or unconnected and recording the source of what comes back; bound to an address of the block or left to the kernel) each ask 1-3 questions of a local address (127.0.0.1, addresses of the private block, ::1 on the dual-stack forms; one address per case or one per socket), all in flight together with drawn gaps, the upstream answering at once or after 20-400 ms; oracle: every query gets exactly one response with its ID and question on the socket it was sent from, coming from the address that was asked; non-trivial = threads >= 2 and an IPv4 address other than 127.0.0.1")
+	st := vfkit.Stats("TestVfC03WildcardUDP", "UDP listeners on the wildcard address (forms :P, 0.0.0.0:P, [::]:P) with udp.multi_routes and threads in {1,2,4}; 1-6 fresh client sockets (connected, or unconnected and recording the source of what comes back; bound to an address of the block or left to the kernel) each ask 1-3 questions of a local address (127.0.0.1, addresses of the private block, ::1 on the dual-stack forms; one address per case or one per socket), all in flight together with drawn gaps, the upstream answering at once or after 20-400 ms; two of the six proxies have a client limiter of 1/s, burst 2, so that most of their responses are REFUSED; oracle: every query gets exactly one response with its ID and question on the socket it was sent from, coming from the address that was asked; non-trivial = threads >= 2 and an IPv4 address other than 127.0.0.1")
 	defer vfkit.Flush()
 	block := NextIPBlock()
 	var delays sync.Map // first label -> delay of the upstream reply
@@ -66,12 +66,14 @@ func TestVfC03WildcardUDP(t *testing.T) {
 		port    int
 		threads int
 		form    string
+		limited bool // a client limiter so tight that most queries are REFUSED: those responses, too, come from the address asked
 	}
 	var proxies []*wp
 	for _, c := range []struct {
 		threads int
 		form    string
-	}{{1, ":%d"}, {2, "0.0.0.0:%d"}, {4, "[::]:%d"}, {4, ":%d"}} {
+		limited bool
+	}{{1, ":%d", false}, {2, "0.0.0.0:%d", false}, {4, "[::]:%d", false}, {4, ":%d", false}, {2, ":%d", true}, {1, "0.0.0.0:%d", true}} {
 		port, lock := wildPort()
 		defer lock.Close()
 		u := map[string]any{"multi_routes": true}
@@ -83,6 +85,9 @@ func TestVfC03WildcardUDP(t *testing.T) {
 			Upstreams: []UpstreamCfg{{Tag: "up", Addr: up.Addr()}},
 			Rules:     []Rule{{Forward: "up"}},
 		}
+		if c.limited {
+			cfg.Limiter = &LimiterCfg{Client: &ClientLimiterCfg{Limit: 1, Burst: 2}}
+		}
 		p, err := StartProxy(cfg.YAML(), nil, ProxyOpts{})
 		if err != nil {
 			t.Fatal(err)
@@ -91,7 +96,7 @@ func TestVfC03WildcardUDP(t *testing.T) {
 		if p.Exited() {
 			t.Fatalf("proxy with listener %s did not start: %s", fmt.Sprintf(c.form, port), tail(p.Stderr(), 600))
 		}
-		proxies = append(proxies, &wp{p, port, c.threads, c.form})
+		proxies = append(proxies, &wp{p, port, c.threads, c.form, c.limited})
 	}
 	caseNo := 0
 	rapid.Check(t, func(t *rapid.T) {
@@ -194,6 +199,7 @@ func TestVfC03WildcardUDP(t *testing.T) {
 		}
 		deadline := time.Now().Add(8 * time.Second)
 		buf := make([]byte, 4096)
+		refused := 0
 		for _, k := range socks {
 			got := map[uint16]int{}
 			for len(got) < len(k.qs) {
@@ -212,7 +218,10 @@ func TestVfC03WildcardUDP(t *testing.T) {
 						q = &k.qs[i]
 					}
 				}
-				if q == nil || len(r.Msg.Q) != 1 || !r.Msg.Q[0].Name.EqualFold(q.name) || !r.Msg.Has(vfkit.BitQR) || r.Msg.Rcode() != 0 {
+				if r.Msg.Rcode() == 5 && P.limited {
+					refused++
+				}
+				if q == nil || len(r.Msg.Q) != 1 || !r.Msg.Q[0].Name.EqualFold(q.name) || !r.Msg.Has(vfkit.BitQR) || (r.Msg.Rcode() != 0 && !(P.limited && r.Msg.Rcode() == 5)) {
 					t.Fatalf("response %s matches no query of the socket it arrived on; %s", r.Msg.Msg.String(), desc)
 				}
 				if !from.IP.Equal(k.dst.IP) || from.Port != k.dst.Port {
@@ -238,7 +247,7 @@ func TestVfC03WildcardUDP(t *testing.T) {
 		if P.p.Exited() {
 			t.Fatalf("proxy exited; %s\n%s", desc, tail(P.p.Stderr(), 800))
 		}
-		st.Case(vfkit.Fingerprint(caseNo, os.Getpid()), nontrivial, []string{fmt.Sprintf("threads=%d", P.threads), "form=" + P.form, fmt.Sprintf("addresses-asked=%d", len(dsts))}, func() any {
+		st.Case(vfkit.Fingerprint(caseNo, os.Getpid()), nontrivial, []string{fmt.Sprintf("threads=%d", P.threads), "form=" + P.form, fmt.Sprintf("addresses-asked=%d", len(dsts)), fmt.Sprintf("limiter=%v", P.limited), fmt.Sprintf("refused-by-the-limiter=%v", refused > 0)}, func() any {
 			return map[string]any{"listener": fmt.Sprintf(P.form, P.port), "threads": P.threads, "sockets": nSock, "addresses": len(dsts)}
 		})
 	})
